@@ -18,6 +18,7 @@ Static clauses decided (necessary conditions of C35):
           the provider's process lock, clause LOCK of C19), on the other dialects it opens the transaction the row locks live in.
  SQL      a for_update query builds a SELECT_FOR_UPDATE ast; the base SQL builder appends FOR UPDATE [NOWAIT|SKIP LOCKED];
           SQLite's builder is the only override that omits the clause.
+ ADOPT    a db_session that adopts a leftover (interactive-mode) cache merges its own immediate flag into the cache on every path.
  SERIAL   a serializable db_session is immediate (DBSessionContextManager.__init__) and PostgreSQL/MySQL/Cockroach set the
           isolation level in set_transaction_mode.
 """
@@ -118,9 +119,23 @@ def run(ctx):
         f = repo.fn(modn, cn + '.set_transaction_mode')
         ok = any(isinstance(s, ast.If) and 'serializable' in norm(s.test) and any('SERIALIZABLE' in norm(x) for x in s.body) for s in walk_no_nested(f.node))
         ctx.ob('C35-SERIAL.isolation-level-set', f, f.node, ok, '' if ok else '%s.set_transaction_mode does not set SERIALIZABLE isolation for serializable sessions' % cn)
+    # ---------------------------------------------------------------- ADOPT
+    # a db_session that adopts a session cache created outside of any db_session (interactive mode) takes over with ITS OWN transaction mode:
+    # wherever `cache.db_session = db_session` is executed, `cache.immediate` has been merged with db_session.immediate on the same path
+    # (a serializable / immediate / non-optimistic session would otherwise read in autocommit mode, without BEGIN IMMEDIATE)
+    pc = repo.fn(CORE, 'SessionCache.prepare_connection_for_query_execution'); g = cg.cfg(pc); R = pc.recv
+    adopts = [n for n in g.nodes if n.kind == 'stmt' and isinstance(n.ast, ast.Assign) and any(dotted(t) == R + '.db_session' for t in n.ast.targets) and dotted(n.ast.value) == 'db_session']
+    merges = [n for n in g.nodes if n.kind == 'stmt' and isinstance(n.ast, ast.Assign) and any(dotted(t) == R + '.immediate' for t in n.ast.targets) and 'db_session.immediate' in norm(n.ast.value)]
+    ctx.need(bool(adopts), 'C35-ADOPT: `%s.db_session = db_session` not found in prepare_connection_for_query_execution' % R)
+    for a_ in adopts:
+        ok = bool(merges) and (g.dominated(a_, merges) or g.must_pass_after(a_, merges, exits=[g.exit]))
+        ctx.ob('C35-ADOPT.adopted-cache-takes-the-sessions-transaction-mode', pc, a_.ast, ok,
+               '' if ok else 'the cache is attached to the db_session on a path that does not merge db_session.immediate into cache.immediate: a serializable/immediate session that '
+               'adopts a leftover cache runs its reads in autocommit mode and takes no lock', node=a_.ast, expected='cache.immediate = cache.immediate or db_session.immediate next to the adoption')
 
 
 MUTANTS = [
+    dict(id='C35-a1', file='pony/orm/core.py', fn='SessionCache.prepare_connection_for_query_execution', old="            cache.db_session = db_session\n            cache.immediate = cache.immediate or db_session.immediate\n", new="            cache.db_session = db_session\n", expect='C35-ADOPT'),
     dict(id='C35-m1', file='pony/orm/core.py', fn='EntityMeta._find_in_cache_', old='                return None, unique  # object is found, but it is not locked',
          new="                if obj._status_ not in ('inserted', 'updated'):\n                    return None, unique\n                cache.for_update.add(obj)", expect='C35-LOCKSET'),
     dict(id='C35-m2', file='pony/orm/core.py', fn='EntityMeta._find_in_cache_', old='            if for_update and obj not in cache.for_update:\n                return None, unique  # object is found, but it is not locked\n', new='', expect='C35-RELOCK'),
